@@ -135,7 +135,7 @@ def classes_of(ps, role):
 
 def content_classes(c):
     n = c["n"]
-    return ["type=" + c["type"], "len=0" if n == 0 else "len%16==0" if n % 16 == 0 else "len<16" if n < 16 else "len>=4096" if n >= 4096 else "len other"]
+    return ["type=" + c["type"], ("len=0 (NULL pointer)" if (c["seed"] & 1 and C.EMPTY_AS_NULL) else "len=0") if n == 0 else "len%16==0" if n % 16 == 0 else "len<16" if n < 16 else "len>=4096" if n >= 4096 else "len other"]
 
 
 # ---------------------------------------------------------------------------------------------------
@@ -240,6 +240,7 @@ def attribute_refusal(ctx, l, what, r, limit_si, limit_ri, one_signer, ns, one_r
 def signed(case, ctx):
     """cms_sign / cms_verify: content, certificates, every SignerInfo valid under its signer; tampering; zero SignerInfos"""
     l = L(ctx)
+    C.EMPTY_AS_NULL = False          # cms_sign takes a NULL content pointer as 'no content' and refuses it; the encrypting calls accept (NULL, 0)
     samekey = case["samekey"] and len(case["signers"]) > 1
     ps = parties(ctx, l, case["signers"], case["issuer"], case["base"], "s", samekey)
     given, tlv = make_content(case["content"])
@@ -355,6 +356,7 @@ def open_checks(ctx, what, l, opener, rs, outsider, expect, case_id):
 def enveloped(case, ctx):
     """cms_envelop / cms_deenvelop: every recipient opens with a key object of any provenance; outsiders; tampering of encryptedKey, IV, ciphertext"""
     l = L(ctx)
+    C.EMPTY_AS_NULL = bool(case["content"]["seed"] & 1) if isinstance(case.get("content"), dict) else False
     rs = parties(ctx, l, case["rcpts"], case["issuer"], case["base"], "r")
     outsider = parties(ctx, l, [case["outsider"]], case["issuer"], case["base"] + 50, "x", avoid={p.d for p in rs})[0]
     raw = blob(case["content"]["n"], case["content"]["pat"], case["content"]["seed"])
@@ -398,6 +400,7 @@ enc_case = st.fixed_dictionaries({"content": content_s, "key": _key16, "iv": _ke
 def encrypted(case, ctx):
     """cms_encrypt / cms_decrypt round trip == OpenSSL SM4-CBC; tampering of IV and ciphertext"""
     l = L(ctx)
+    C.EMPTY_AS_NULL = bool(case["content"]["seed"] & 1) if isinstance(case.get("content"), dict) else False
     raw = blob(case["content"]["n"], case["content"]["pat"], case["content"]["seed"])
     ct = C.ctype_id(l, case["content"]["type"])
     key, iv, s1, s2 = ub(case["key"]), ub(case["iv"]), info(case["s1"]), info(case["s2"])
@@ -441,6 +444,7 @@ se_case = st.fixed_dictionaries({"crl": st.sampled_from([True, True, True, False
 def signed_enveloped(case, ctx):
     """cms_sign_and_envelop / cms_deenvelop_and_verify: round trip for every signer and recipient set; tampering of every listed field; zero SignerInfos"""
     l = L(ctx)
+    C.EMPTY_AS_NULL = bool(case["content"]["seed"] & 1) if isinstance(case.get("content"), dict) else False
     samekey = case["samekey"] and len(case["signers"]) > 1
     ss = parties(ctx, l, case["signers"], case["issuer"], case["base"], "s", samekey)
     rs = parties(ctx, l, case["rcpts"], case["issuer"], case["base"], "r")
